@@ -261,8 +261,11 @@ def register(R):
       ensures=INV + ["ncalls('_stop_enqueue') == 1 or (ncalls('_stop_enqueue') == 0 and enq_done(self))"],
       # a producer failure is recorded for the consumers, the producer signs off once, and the error is re-raised
       raises_ensures={'UserError': ['not self.ignore_error', "ncalls('_stop_enqueue') == 1",
-                                    # the failure is what the consumers will observe
-                                    'self._exception is raised'],
+                                    # the failure is what the consumers will observe ...
+                                    'self._exception is raised',
+                                    # ... and it is announced: a failed producer ends the stream for everybody (enq_done holds
+                                    # as soon as a failure is recorded), so every waiting consumer is woken when it signs off
+                                    'notified_all(self._dequeue_lock)'],
                       'TimeoutError': ['True']},
       loops={0: dict(invariant=INV + ["ncalls('_stop_enqueue') == 0", "ncalls('_start_enqueue') == 1", 'not iterator.dead'],
                      havoc_ghost=['puts'])},
